@@ -55,6 +55,11 @@ func runLift3x(a *args) {
 			var ge, gb, gt float64
 			p, msg := safely(func() { ge = o.Score("environmental"); gb = o.Score("base"); gt = o.Score("temporal") })
 			switch prop {
+			case "C11":
+				col.count("realisations checked for one-decimal scores in range", 1)
+				checkTenth(col, prop, v, o, "environmental", ge, p, msg, 0)
+				checkTenth(col, prop, v, o, "base", gb, p, msg, 0)
+				checkTenth(col, prop, v, o, "temporal", gt, p, msg, 0)
 			case "C03":
 				we := tb.expectEnv(vn, c)
 				col.count("objects compared with the model score of their effective class", 1)
